@@ -131,6 +131,7 @@ pub fn tokenize<'a>(
                         | Variant::LessThanOrEqualTo
                         | Variant::Minus
                         | Variant::Plus
+                        | Variant::RightCurly
                         | Variant::Slash
                         /* [tag:no_consecutive_line_break_terminators] */
                         | Variant::Terminator(TerminatorType::LineBreak)
@@ -142,7 +143,6 @@ pub fn tokenize<'a>(
                         | Variant::Identifier(_)
                         | Variant::Integer
                         | Variant::IntegerLiteral(_)
-                        | Variant::RightCurly
                         | Variant::RightParen
                         | Variant::Terminator(TerminatorType::Semicolon)
                         | Variant::True
